@@ -152,7 +152,11 @@ RULE = ('real TaurexChemistry with 1-4 fill gases (random ratios 1e-6..2) and 0-
         '(in-memory tables) and optional deactive_molecules; quota of mixtures whose traces sum to exactly 1.0 in '
         'the bottom layer (dyadic abundances), just above 1 (1e-12..1e-3) and clearly above 1; a third of the free '
         'cases are re-initialised on the SAME chemistry object after 1-3 parameters were rewritten through the '
-        'fitting-parameter setters; constructor variants (ratio as float, fill gas as str). distinct '
+        'fitting-parameter setters; constructor variants (ratio as float, fill gas as str); session stream: 2-3 scratch '
+        'directories of cross-section files, histories of 5-12 cache operations (set_opacity_path switches, files added / '
+        'removed, in-memory tables registered, OpacityCache()[m] loads, clear_cache, find_list_of_molecules) with a chemistry '
+        'constructed after every second or third operation, each judged against the files of the current path + the tables in '
+        'memory and against Chemistry.CacheState (op c10.session). distinct '
         'non-trivial = distinct (nfill, sorted trace kinds, nlayers, outcome, region)')
 ASSUMPTIONS = [
     'np.interp / np.linspace / movingaverage as modelled in NpInterp.lean (validated numerically by the C12 run and '
@@ -164,6 +168,9 @@ ASSUMPTIONS = [
     'trace abundances and control values > 0 (constant gas: >= 0), fill ratios >= 0, pressure grid > 0 and '
     'decreasing, no duplicate molecule, smoothing window a percentage in [0, 100]',
     'rounding: model on Float vs numpy doubles compared to 1e-10 relative; sums to one within 1e-12',
+    'session stream: cross-section files are PickleOpacity files `<molecule>.R100.pickle` (the molecule is read off the file '
+    'name; HDF5 / ExoTransmit discovery is not exercised); k-tables and force_active are left out; a file removed from a '
+    'directory stays available once its table is in memory',
     'source tie (Props/C10Src.lean): gas.mixProfile after gas.initialize_profile(...) is a profile of nlayers entries '
     '(parameter gasMix); x + 0 = x for the `mixratio_remainder += np.zeros(nlayers)` step; initialize_chemistry is tied '
     'up to the row list mix_profile (np.vstack and the base-class call that runs compute_mu_profile come after); '
@@ -931,6 +938,159 @@ def isolation(ctx):
                           dict(kind='isolation', set_on_first=newr), dict(read=ra))
 
 
+# --------------------------------------------------------------------------------------- sessions of the opacity cache
+# Availability of opacity data is a matter of the SESSION: the directory the opacity path points to when a chemistry is
+# constructed (cross-section files found there), and the tables in memory (registered, or loaded from an earlier path).
+# One session = 2-3 scratch directories, a history of 5-12 operations (switch the path, put a file into / take a file out of
+# a directory, register an in-memory table, load a molecule through OpacityCache()[m], clear the cache, ask for the list of
+# molecules) and a chemistry constructed after every second or third of them.  Model: Chemistry.CacheState (op c10.session).
+SESSION_POOL = ['H2O', 'CH4', 'CO2', 'CO', 'NH3', 'HCN']
+OP_TAG = dict(setPath=0, addFile=1, removeFile=2, register=3, load=4, clear=5, ask=6, build=6)     # constructing a chemistry asks
+
+
+def write_xsec_file(directory, mol):
+    """a loadable PickleOpacity file `<mol>.R100.pickle`"""
+    import os
+    import pickle
+    t = np.array([300.0, 1000.0, 2000.0])
+    p = np.array([1e-5, 1e-2, 1.0, 100.0])
+    wno = np.linspace(500.0, 5000.0, 6)
+    data = {'t': t, 'p': p, 'name': mol, 'wno': wno, 'xsecarr': np.full((p.size, t.size, wno.size), 1e-22)}
+    with open(os.path.join(directory, '%s.R100.pickle' % mol), 'wb') as fh:
+        pickle.dump(data, fh)
+
+
+def enc_cache_op(op):
+    t = [C.N(OP_TAG[op[0]])]
+    if op[0] in ('setPath',):
+        t.append(C.N(op[1]))
+    elif op[0] in ('addFile', 'removeFile'):
+        t += [C.N(op[1]), C.S(op[2])]
+    elif op[0] in ('register', 'load'):
+        t.append(C.S(op[1]))
+    return ' '.join(t)
+
+
+def gen_session(rng, k):
+    ndirs = int(rng.integers(2, 4))
+    ops = []
+    # every session starts the way an input file does (a path is set, the files are there) or with no path at all
+    have = [set() for _ in range(ndirs)]
+    for i in range(ndirs):
+        for m in rng.choice(SESSION_POOL, size=int(rng.integers(0, 4)), replace=False):
+            ops.append(['addFile', i, str(m)])
+            have[i].add(str(m))
+    if k % 4 != 3:
+        ops.append(['setPath', int(rng.integers(0, ndirs))])
+    ops.append(['build'])
+    for _ in range(int(rng.integers(4, 11))):
+        r = rng.random()
+        m = str(rng.choice(SESSION_POOL))
+        i = int(rng.integers(0, ndirs))
+        if r < 0.28:
+            ops.append(['setPath', i])
+        elif r < 0.43:
+            ops.append(['addFile', i, m])
+        elif r < 0.53:
+            ops.append(['removeFile', i, m])
+        elif r < 0.63:
+            ops.append(['register', m])
+        elif r < 0.75:
+            ops.append(['load', m])
+        elif r < 0.80:
+            ops.append(['clear'])
+        elif r < 0.88:
+            ops.append(['ask'])
+        if rng.random() < 0.45 or ops[-1][0] == 'setPath':
+            ops.append(['build'])
+    if ops[-1][0] != 'build':
+        ops.append(['build'])
+    gases = [str(x) for x in rng.choice(SESSION_POOL, size=int(rng.integers(2, 6)), replace=False)]
+    return dict(kind='session', ndirs=ndirs, ops=ops, gases=gases)
+
+
+def eval_session(ctx, c):
+    import os
+    import shutil
+    import tempfile
+    from taurex.cache import OpacityCache, GlobalCache
+    from taurex.chemistry import TaurexChemistry, ConstantGas
+    quiet()
+    install([], None)
+    oc = OpacityCache()
+    root = tempfile.mkdtemp(prefix='verif_c10_')
+    dirs = [os.path.join(root, 'xsec%d' % i) for i in range(int(c['ndirs']))]
+    for d_ in dirs:
+        os.mkdir(d_)
+    names = ['H2', 'He'] + list(c['gases'])
+    hist = []                 # the operations so far, as the model takes them
+    cur = None
+    builds = 0
+    try:
+        for op in c['ops']:
+            kind = op[0]
+            if kind == 'setPath':
+                oc.set_opacity_path(dirs[op[1]])
+                cur = op[1]
+            elif kind == 'addFile':
+                write_xsec_file(dirs[op[1]], op[2])
+            elif kind == 'removeFile':
+                fn = os.path.join(dirs[op[1]], '%s.R100.pickle' % op[2])
+                if os.path.exists(fn):
+                    os.remove(fn)
+            elif kind == 'register':
+                oc.add_opacity(mem_opacity(op[1]))
+            elif kind == 'load':
+                try:
+                    oc[op[1]]
+                except Exception:
+                    pass                                   # no file for it in the current path
+            elif kind == 'clear':
+                oc.clear_cache()
+            hist.append(op)
+            ctx.bucket('session-op:' + kind)
+            if kind not in ('build', 'ask'):
+                continue
+            small = dict(kind='session', ndirs=c['ndirs'], gases=c['gases'], ops=[list(o) for o in hist])
+            d = ctx.model().call('c10.session', C.N(int(c['ndirs'])), C.L(hist, enc_cache_op))
+            avail_m = sorted(set(d.list(d.str)))
+            # the property's own notion, read off the session as it is now: a cross-section file in the directory the path
+            # points to, or a table in memory
+            on_disk = set() if cur is None else {f.split('.')[0] for f in os.listdir(dirs[cur]) if f.endswith('.pickle')}
+            avail_now = sorted(on_disk | set(oc.opacity_dict.keys()))
+            if kind == 'ask':
+                ctx.check_eq('find_list_of_molecules() vs Chemistry.CacheState.molecules', sorted(oc.find_list_of_molecules()),
+                             avail_m, small)
+                continue
+            builds += 1
+            chem = TaurexChemistry(fill_gases=['H2', 'He'], ratio=0.17)
+            for g in c['gases']:
+                chem.addGas(ConstantGas(g, mix_ratio=1e-4))
+            ctx.check_eq('availableActive of a chemistry constructed in a session vs Chemistry.CacheState.molecules',
+                         sorted(chem.availableActive), avail_m, small)
+            d2 = ctx.model().call('c10.split', C.L(names, C.S), C.L(avail_m, C.S), '0')
+            act_m, inact_m = d2.list(d2.str), d2.list(d2.str)
+            ctx.check_eq('activeGases (session) vs Chemistry.activeGases', list(chem.activeGases), act_m, small)
+            ctx.check_eq('inactiveGases (session) vs Chemistry.inactiveGases', list(chem.inactiveGases), inact_m, small)
+            exp_a = [g for g in names if g in avail_now]
+            exp_i = [g for g in names if g not in avail_now]
+            switched = sum(1 for o in hist if o[0] == 'setPath')
+            ctx.case(key=('session', switched, len(exp_a), cur is None), bucket='session:chemistry-built',
+                     sample=dict(history=len(hist), path_switches=switched, active=exp_a, available=avail_now))
+            ctx.bucket('session:path-switches-before-build:' + ('0' if switched == 0 else '1' if switched == 1 else '2+'))
+            if list(chem.activeGases) != exp_a or list(chem.inactiveGases) != exp_i:
+                ctx.violation('active-split:session', 'a chemistry constructed in a session whose opacity path / files / '
+                              'in-memory tables changed does not split its gases by the opacity data available when it is '
+                              'constructed', small,
+                              dict(active=list(chem.activeGases), inactive=list(chem.inactiveGases), expected_active=exp_a,
+                                   files_in_current_path=sorted(on_disk), in_memory=sorted(oc.opacity_dict.keys())))
+                return
+    finally:
+        uninstall()
+        GlobalCache()['xsec_path'] = None
+        shutil.rmtree(root, ignore_errors=True)
+
+
 def run(ctx):
     quiet()
     validate_weights(ctx)
@@ -940,6 +1100,8 @@ def run(ctx):
     with np.errstate(all='ignore'):
         for k in range(n):
             eval_case(ctx, gen_case(ctx.rng, k))
+        for k in range(ctx.n(120, 1500)):
+            eval_session(ctx, gen_session(ctx.rng, k))
         malformed(ctx)
 
 
@@ -947,11 +1109,14 @@ def replay(ctx, case):
     """one stored case: a bare case dict, a corpus entry {note, case} or a replay file written by main.py"""
     if case.get('kind') == 'unchecked-obligation':
         for m in case.get('first_disagreements', []):
-            if isinstance(m.get('case'), dict) and 'pressure' in m['case']:
+            if isinstance(m.get('case'), dict) and ('pressure' in m['case'] or m['case'].get('kind') == 'session'):
                 replay(ctx, m['case'])
         return
     if isinstance(case.get('case'), dict) and 'pressure' not in case:
         case = case['case']
     case = {k: v for k, v in case.items() if k not in ('phase', 'name')}
     with np.errstate(all='ignore'):
-        eval_case(ctx, case)
+        if case.get('kind') == 'session':
+            eval_session(ctx, case)
+        else:
+            eval_case(ctx, case)
